@@ -19,9 +19,21 @@ var netProcs = []int{1, 2, 3, 4, 8, 16}
 func checkExportNetwork(net *a.Network, want []string, scratch string, tag string) (string, string, int) {
 	buses := net.Buses()
 	n := 0
-	for _, procs := range netProcs {
+	for pi, procs := range netProcs {
 		prev := runtime.GOMAXPROCS(procs)
 		base := filepath.Join(scratch, fmt.Sprintf("%s-p%d", tag, procs))
+		// every second run exports into a directory that already holds LONGER files of the same
+		// names: the output must be a function of the model, not of what the directory held
+		stale := pi%2 == 1
+		if stale {
+			dir := filepath.Join(base, clearSp(net.Name()))
+			if os.MkdirAll(dir, 0o755) == nil {
+				for bi, bus := range buses {
+					old := want[bi] + "\nCM_ \"stale tail of an earlier, longer export\";\n" + want[bi]
+					_ = os.WriteFile(filepath.Join(dir, clearSp(bus.Name())+".dbc"), []byte(old), 0o644)
+				}
+			}
+		}
 		err := func() (err error) {
 			defer func() {
 				if r := recover(); r != nil {
@@ -50,6 +62,9 @@ func checkExportNetwork(net *a.Network, want []string, scratch string, tag strin
 			case len(data) == 0 && len(want[bi]) > 0:
 				os.RemoveAll(base)
 				return "exportnetwork-empty-file-" + shape, fmt.Sprintf("%d buses, GOMAXPROCS=%d: the file of bus %d (%q) is empty, ExportBus writes %d bytes", len(buses), procs, bi, bus.Name(), len(want[bi])), n
+			case stale && len(data) > len(want[bi]) && string(data[:len(want[bi])]) == want[bi]:
+				os.RemoveAll(base)
+				return "exportnetwork-stale-tail", fmt.Sprintf("%d buses, GOMAXPROCS=%d: the file of bus %d (%q) existed and was longer: %d bytes of the old file remain after the %d bytes ExportBus writes", len(buses), procs, bi, bus.Name(), len(data)-len(want[bi]), len(want[bi])), n
 			case string(data) != want[bi]:
 				p, q := firstDiffLine(want[bi], string(data))
 				os.RemoveAll(base)
